@@ -58,6 +58,45 @@ impl AnyCheck {
         }
     }
 
+    /// The same check restricted to what can run without the guard zone and without
+    /// machine code (None if nothing is left).
+    pub fn for_inproc(&self) -> Option<AnyCheck> {
+        match self {
+            AnyCheck::Prog(c) => {
+                if c.case.backend == crate::case::Backend::BaseJit || c.kind == check::Kind::AllocFail {
+                    return None;
+                }
+                let mut n = c.clone();
+                n.case.alloc = crate::case::AllocPlan::OFF;
+                // keep interpreted runs short
+                n.ref_steps = n.ref_steps.min(3_000);
+                n.exec_cap = n.exec_cap.min(3_000);
+                Some(AnyCheck::Prog(n))
+            }
+            AnyCheck::Tape(c) => {
+                let mut n = c.clone();
+                n.alloc = crate::case::AllocPlan::OFF;
+                // keep allocations small under the interpreter
+                for o in n.ops.iter_mut() {
+                    use crate::tape::Op;
+                    let clamp = |x: i64| x.clamp(-3000, 3000);
+                    *o = match *o {
+                        Op::Mov(x) => Op::Mov(clamp(x)),
+                        Op::Read(x) => Op::Read(clamp(x)),
+                        Op::Write(x, v) => Op::Write(clamp(x), v),
+                        Op::Access(a, b) => Op::Access(clamp(a), clamp(b)),
+                        Op::Check(x) => Op::Check(clamp(x)),
+                        Op::PtrRel(x) => Op::PtrRel(clamp(x)),
+                        Op::CheckPtr(x) => Op::CheckPtr(clamp(x)),
+                    };
+                }
+                Some(AnyCheck::Tape(n))
+            }
+            AnyCheck::Svec(_) => Some(self.clone()),
+            _ => None,
+        }
+    }
+
     /// Short signature used to group violations of the same kind.
     pub fn signature(&self) -> String {
         match self {
